@@ -20,7 +20,9 @@ ASSUMPTIONS = ["strings are free of backslashes and line breaks (statement); HTM
 SHARDS = {"quick": 1, "thorough": 16}
 
 COMPONENTS = ["Foo", "Bar", "Baz", "My.Comp", "UI.Card"]
-STRS = ["hello", "a b", "it's", "say \"hi\"", "x=1;", "ünï", "50%", "", "{curly}", "a,b", "(p)", "a&b", "<i>x</i>", "x>y", "&amp;", "1 < 2 && 3"]
+STRS = ["hello", "a b", "it's", "say \"hi\"", "x=1;", "ünï", "50%", "", "{curly}", "a,b", "(p)", "a&b", "<i>x</i>", "x>y", "&amp;", "1 < 2 && 3",
+        # text that looks like a placeholder of some templating scheme is text
+        "{name}", "Hello {name}!", "{component}", "{0} %s $1 ${x} %(name)s", "{{x}}", "<%= y %>"]
 
 
 class JTF:
